@@ -140,7 +140,7 @@ func (c *Client) Patch(ctx context.Context, obj client.Object, patch client.Patc
 		status := st.Status
 		nodeName := st.Spec.NodeName
 		o.DeepCopyInto(st)
-		st.Status = status        // main-resource patch does not touch status
+		st.Status = status          // main-resource patch does not touch status
 		st.Spec.NodeName = nodeName // nodeName is only set through the binding sub-resource
 	case *v1.ConfigMap:
 		if err := c.S.call("patch-configmap", true); err != nil {
